@@ -33,9 +33,9 @@ RULE = (
     'mode). History arms draw sequences of BatchDL / BatchDLOfDifferences / ExtendedBatchDL calls '
     'executed on ONE curve object; on named curves the logarithms are aimed at 0, 1, bound-1, '
     'j*t +- (ts-1), j*t +- ts with ts = int(sqrt(bound*len)), t = 2*ts-1 recomputed by the harness '
-    'only to aim. Structured keys: every shift j (multiple of 8, 32-bit window inside the order '
-    'length) and every repeat count 2..bits//32 per curve with w in {1, largest admissible, 2^31, '
-    'giant-step edges, random}; close pairs at distance 1, 2, max_diff-1, random < max_diff, plus '
+    'only to aim. Structured keys: every shift j (multiple of 8 with w << j below the order for '
+    'some 32-bit w, so also the windows that stick out of a 521-bit order) and every repeat count '
+    '2..ceil(bits/32) (with w*(1+2^32+...) below the order) per curve with w in {1, largest admissible, 2^31, giant-step edges, random}; close pairs at distance 1, 2, max_diff-1, random < max_diff, plus '
     'identical keys, far keys and unrelated keys on several curves. A case is non-trivial when '
     'some claimed logarithm sits on a table or giant-step edge (x mod t in {ts-1, ts}, x in '
     '{0, bound-1}), or a call is preceded by a call that left a cached table of a different size, '
@@ -52,8 +52,8 @@ ASSUMPTIONS = [
     'use a fresh EcCurve object per case',
     'curve._table_size is read only to label the history class (larger/equal/smaller cached '
     'table), never for a verdict',
-    'structured private keys are integers in [1, n-1] (w << j or w*(1+2^32+...) itself is below '
-    'n); shifts j with j + 32 <= bit length of the order, as ExtendedBatchDL documents',
+    'structured private keys are integers in [1, n-1]: w << j or w*(1+2^32+...+2^(32(r-1))) itself '
+    'is below n (w is capped accordingly); every byte shift j, every repeat count r >= 2',
     'the point at infinity is passed to BatchDL (documented result 0) but never to '
     'BatchDLOfDifferences or the checks (it is not a public key)',
     'configuration: CheckECKeySmallDifference is constructed with max_diff <= 2^12 (quick) / '
@@ -477,7 +477,7 @@ def run_toy_history(d):
   ops = []
   for op in d['ops']:
     if op[0] == 'batchdl':
-      ops.append(('batchdl', [x % N for x in op[1]], max(1, op[2])))
+      ops.append(('batchdl', [x % N for x in op[1]], max(0, op[2])))
     elif op[0] == 'diffs':
       ops.append(('diffs', [1 + x % (N - 1) for x in op[1]], [1 + x % (N - 1) for x in op[2]],
                   max(1, op[3])))
@@ -499,7 +499,7 @@ def strat_toy_history(tier):
     N = c[5]
     x = st.integers(0, N - 1)
     k = st.integers(0, N - 2)
-    bound = st.one_of(st.integers(1, 30), st.integers(1, 2 * N + 2), st.integers(1, 2 * N + 2),
+    bound = st.one_of(st.integers(0, 30), st.integers(1, 2 * N + 2), st.integers(1, 2 * N + 2),
                       st.sampled_from([N - 1, N, N + 1]), st.integers(1, 60000))
     maxlen = draw(st.sampled_from([1, 2, 4, 9, 40]))
     op = st.one_of(
@@ -545,7 +545,7 @@ def _resolve_bound(bs, L):
   if bs[0] == 'p':
     return 1 << bs[1]
   if bs[0] == 'i':
-    return max(1, bs[1])
+    return max(0, bs[1])     # a bound of 0 claims nothing; the call must still return a list
   L = max(1, L)
   if bs[0] == 't':
     # 'tight': a table size ts = m*m + c*m that PointTable fills exactly (no spare entries)
@@ -625,7 +625,7 @@ def _resolve_named_ops(d, order):
       bound = _resolve_bound(op[1], len(sels))
       ops.append(('batchdl', [_resolve_x(s, bound, len(sels), order, mat) for s in sels], bound))
     else:
-      M = _resolve_bound(op[1], 1)
+      M = max(1, _resolve_bound(op[1], 1))
       ops.append(('diffs', [_resolve_key(s, M, order, bases, d['m']) for s in op[2]],
                   [_resolve_key(s, M, order, bases, d['m']) for s in op[3]], M))
   return ops
@@ -654,7 +654,7 @@ def _bound_spec(tier):
   return st.one_of(
       st.tuples(st.just('p'), st.integers(0, kmax)),
       st.tuples(st.just('i'), st.integers(1, 1 << kmax)),
-      st.tuples(st.just('i'), st.integers(1, 300)),
+      st.tuples(st.just('i'), st.integers(0, 300)),
       st.tuples(st.just('t'), st.integers(1, mmax), st.integers(0, 2)),
       st.tuples(st.just('g'), st.integers(2, mmax * mmax)))
 
@@ -697,11 +697,27 @@ def _jsonable(x):
 
 # ---------------------------------------------------------------- CheckWeakECPrivateKey
 
-def _forms(bits):
-  """The structured forms of the statement for an order of `bits` bits."""
-  shifts = [j for j in range(0, bits, 8) if j + 32 <= bits]
-  reps = list(range(2, bits // 32 + 1))
+def _forms(order):
+  """The structured forms of the statement for a group order.
+
+  shifts: every multiple of 8 for which some 32-bit w gives a private key w << j below the
+  order (w = 1 does); reps: every repeat count r >= 2 for which some w gives a private key
+  w * (1 + 2^32 + ... + 2^(32(r-1))) below the order (r <= ceil(bits / 32)).
+  """
+  bits = order.bit_length()
+  shifts = [j for j in range(0, bits, 8) if (1 << j) < order]
+  reps = [r for r in range(2, bits // 32 + 3) if _rep_mult(r) < order]
   return shifts, reps
+
+
+def _last_window(bits):
+  """Offset of the 4-byte window that ends at the most significant byte of the key."""
+  return (bits + 7) // 8 * 8 - 32
+
+
+def _lib_nforms(bits):
+  """How many transformed points per key the search uses (only to aim words at its edges)."""
+  return _last_window(bits) // 8 + 1 + max(0, (bits + 31) // 32 - 1)
 
 
 def _rep_mult(r):
@@ -739,8 +755,8 @@ def run_weak(d):
   name = eg.CURVE_NAMES[cid]
   order = eg.ref(cid).n
   bits = order.bit_length()
-  shifts, reps = _forms(bits)
-  nforms = len(shifts) + len(reps)
+  shifts, reps = _forms(order)
+  nforms = _lib_nforms(bits)
   mat = Material(d['m'], 'c10weak')
   curve = ec_util.CURVE_FACTORY[cid]
   _reset_named()
@@ -748,10 +764,7 @@ def run_weak(d):
   flags = {}
   privs = []
   for ksel in d['keys']:
-    # the enumeration only produces windows inside the order length (shifts) and repeat counts
-    # up to bits // 32 (reps); a hand-written descriptor may name any byte shift with w << j < n
-    assert ksel[0] == 'x' or (ksel[1] % 8 == 0 and (1 << ksel[1]) < order if ksel[0] == 's'
-                              else ksel[1] in reps)
+    assert ksel[0] == 'x' or (ksel[1] in shifts if ksel[0] == 's' else ksel[1] in reps)
     dk, w = _weak_key(ksel, order, nforms, len(d['keys']), mat)
     privs.append((dk, w, ksel))
   point_of = lambda x: _named_point(cid, x)
@@ -787,14 +800,19 @@ def run_weak(d):
           raise Violation('weakkey:wrong-log', curve=name, form=ksel[0], param=ksel[1], w=w,
                           private_key=dk, got=val)
         if ksel[0] == 's':
-          cls.add('weak:shift' if ksel[1] in shifts else 'weak:shift-window-exceeds-order-length')
-          if ksel[1] == shifts[-1]:
-            cls.add('weak:top-shift(j=bits-32 rounded down)')
+          cls.add('weak:shift')
+          if ksel[1] == _last_window(bits):
+            cls.add('weak:shift=last-4-byte-window')
             flags['edge'] = True
+            if bits % 8 and w >= 1 << (bits - ksel[1] - 1):
+              cls.add('weak:last-window-of-an-order-with-partial-top-byte')
+          elif ksel[1] > _last_window(bits):
+            cls.add('weak:shift-beyond-last-window(short w)')
         else:
           cls.add('weak:repeat')
-          if ksel[1] == reps[-1]:
-            cls.add('weak:top-repeat-count')
+          if ksel[1] >= bits // 32:
+            cls.add('weak:top-repeat-count' if ksel[1] == bits // 32 else
+                    'weak:repeat-count-with-partial-top-word')
             flags['edge'] = True
         cls.add('weak:w=%s' % ksel[2][0])
         if ksel[2][0] in ('edge', 'max'):
@@ -827,15 +845,16 @@ W_ROT = (['max'], ['one'], ['edge', 0, True, 0], ['rand'], ['msb'], ['edge', 1, 
 
 
 def _weak_batches(cid, k, rounds, seed, forms=None):
-  bits = eg.ref(cid).n.bit_length()
-  shifts, reps = _forms(bits)
+  order = eg.ref(cid).n
+  bits = order.bit_length()
+  shifts, reps = _forms(order)
   allforms = [['s', j] for j in reversed(shifts)] + [['r', r] for r in reversed(reps)]
   if forms is not None:
     allforms = forms
   for rnd in range(rounds):
     keys = []
     for i, f in enumerate(allforms):
-      top = (f[0] == 's' and f[1] == shifts[-1]) or (f[0] == 'r' and f[1] == reps[-1])
+      top = (f[0] == 's' and f[1] >= _last_window(bits)) or (f[0] == 'r' and f[1] >= bits // 32)
       keys.append([f[0], f[1], ['max'] if (top and rnd == 0) else
                    list(W_ROT[(i * 5 + rnd * 3) % len(W_ROT)])])
     # interleave so that every batch mixes shifts and repeats
@@ -850,15 +869,18 @@ def _weak_batches(cid, k, rounds, seed, forms=None):
 def enum_weak(tier):
   if tier == 'quick':
     for cid in (C.CURVE_SECP256R1, C.CURVE_SECP256K1, C.CURVE_BRAINPOOLP256R1):
-      yield from _weak_batches(cid, 12, 1, int(cid))
-    yield from _weak_batches(C.CURVE_SECP224R1, 11, 1, 5)
+      yield from _weak_batches(cid, 13, 1, int(cid))
+    yield from _weak_batches(C.CURVE_SECP224R1, 12, 1, 5)
     # larger curves: the top shift / top repeat count and a few others only
     for cid in (C.CURVE_SECP384R1, C.CURVE_SECP521R1):
-      bits = eg.ref(cid).n.bit_length()
-      shifts, reps = _forms(bits)
-      sel = [['s', shifts[-1]], ['r', reps[-1]], ['s', shifts[-2]], ['s', 0], ['r', 2],
+      order = eg.ref(cid).n
+      shifts, reps = _forms(order)
+      top = _last_window(order.bit_length())
+      sel = [['s', top], ['r', reps[-1]], ['s', top - 8], ['s', shifts[-1]], ['s', 0], ['r', 2],
              ['s', shifts[len(shifts) // 2]]]
-      yield from _weak_batches(cid, 6, 1, int(cid), forms=sel)
+      if reps[-1] != order.bit_length() // 32:
+        sel.insert(2, ['r', order.bit_length() // 32])
+      yield from _weak_batches(cid, 7, 1, int(cid), forms=sel)
   else:
     for cid in CURVE_IDS:
       bits = eg.ref(cid).n.bit_length()
@@ -869,7 +891,7 @@ def enum_weak(tier):
 # ---------------------------------------------------------------- CheckECKeySmallDifference
 
 def run_smalldiff(d):
-  M = _resolve_bound(d['max_diff'], 1)
+  M = max(1, _resolve_bound(d['max_diff'], 1))
   _reset_named()
   cls = set()
   flags = {}
@@ -961,28 +983,28 @@ def strat_smalldiff(tier):
     ksel = st.tuples(st.sampled_from(palette), st.sampled_from([0, 0, 0, 1, 3]),
                      st.sampled_from(['z', 'z', '1', '2', 'l', 'l', 'M', 'r', 'n']),
                      st.integers(0, 5), st.booleans())
-    minlen = draw(st.sampled_from([0, 2, 2, 3]))
+    minlen = draw(st.sampled_from([0, 2, 2, 3, 2, 4, 2, 3]))
     keys = draw(st.lists(ksel, min_size=minlen, max_size=max(minlen, maxlen)))
     return {'m': draw(material), 'max_diff': _jsonable(draw(mspec)), 'keys': _jsonable(keys)}
   return s()
 
 
 ARMS = [
-    Arm('weak_private_key', run_weak, enumerate=enum_weak, budget=(400, 3000), weight=10.0,
+    Arm('weak_private_key', run_weak, enumerate=enum_weak, budget=(400, 6000), weight=10.0,
         doc='CheckWeakECPrivateKey: every shift and every repeat count per curve, edge words; '
             'small searches before/after on the same curve object'),
     Arm('toy_batchdl_exhaustive', run_toy_batchdl, enumerate=enum_toy_batchdl, exhaustive=True,
-        budget=(400, 3000), weight=5.0,
+        budget=(400, 6000), weight=5.0,
         doc='every group element x (bound, list length, history mode) on toy prime-order curves'),
     Arm('toy_diffs_exhaustive', run_toy_diffs, enumerate=enum_toy_diffs, exhaustive=True,
-        budget=(400, 3000), weight=4.0,
+        budget=(400, 6000), weight=4.0,
         doc='every pair distance x (max_diff, call form, history mode) on toy curves'),
     Arm('toy_history', run_toy_history, strategy=strat_toy_history, quick=6000, thorough=80000,
         doc='random call histories on one fresh toy curve object'),
-    Arm('named_history', run_named_history, strategy=strat_named_history, quick=2400,
+    Arm('named_history', run_named_history, strategy=strat_named_history, quick=4000,
         thorough=40000, budget=(150, 2400),
         doc='call histories on the shared named-curve objects, logarithms aimed at the edges'),
-    Arm('small_difference', run_smalldiff, strategy=strat_smalldiff, quick=1600, thorough=10000,
+    Arm('small_difference', run_smalldiff, strategy=strat_smalldiff, quick=3200, thorough=10000,
         budget=(150, 2400),
         doc='CheckECKeySmallDifference(max_diff): close pairs, identical keys, several curves'),
 ]
